@@ -367,6 +367,17 @@ func (e *Engine) mergeOutcomes(outs []Outcome) []Outcome {
 
 func (e *Engine) runTask(rc *runCtx, t task) {
 	st, fr := t.st, t.fr
+	defer func() {
+		// an unsupported construct met on a path the solver proves infeasible is not a limitation of
+		// the run: branches are followed lazily, so such paths exist only until somebody looks
+		if r := recover(); r != nil {
+			if _, ok := r.(unsupportedErr); ok && st != nil && !st.dead() && !e.feasible(st) {
+				e.stats.Pruned++
+				return
+			}
+			panic(r)
+		}
+	}()
 	for {
 		if st.dead() {
 			return
